@@ -597,11 +597,62 @@ type c05NullWriter struct{ n int }
 
 func (w *c05NullWriter) WritePacket(p *packet.Packet) (int, error) { w.n++; return 188, nil }
 
+// c05AllocBudget is the memory a call sequence on an n-byte input may allocate in total (not: retain):
+// "a small multiple of the input size". Printing and re-encoding allocate a few hundred bytes per input
+// byte at most for the decoders, and a few KiB per byte for printing and the state tracker (measured
+// maxima are logged by TestC05_ZAllocSurvey); decoders have a much tighter budget of their own.
+func c05AllocBudget(n int) uint64 { return 2<<20 + 16384*uint64(n) }
+
+// c05DecodeBudget bounds what a DECODER alone may allocate for an n-byte input (decoded objects are a
+// few times the size of their encoding; measured maxima stay below a quarter of this).
+func c05DecodeBudget(n int) uint64 { return 32<<10 + 128*uint64(n) }
+
+// c05Decode runs one decoder call and reports a failure if it allocates beyond the decode budget.
+func c05Decode(what string, n int, fn func()) *hx.Failure {
+	a0 := c05Allocated()
+	fn()
+	if used := c05Allocated() - a0; used > c05DecodeBudget(n) {
+		return hx.Failf("memory:decode:"+what, "%s allocated %d bytes while decoding a %d-byte input (budget: 32 KiB + 128 bytes per input byte)", what, used, n)
+	}
+	return nil
+}
+
+// c05Allocated is the exact number of bytes allocated by the process so far (ReadMemStats flushes the
+// per-P caches; the cheaper runtime/metrics counter is only updated when a cache is refilled and
+// attributes allocations to the wrong case).
+func c05Allocated() uint64 {
+	var ms runtime.MemStats
+	runtime.ReadMemStats(&ms)
+	return ms.TotalAlloc
+}
+
+// c05MaxRatio collects, per target, the largest allocation observed relative to the input size (survey only).
+var c05MaxAlloc = map[string][2]uint64{}
+
 func c05Run1(c CaseC05) *hx.Failure {
 	in, spareIntact := withSpare(c.Input)
 	defer func() { _ = spareIntact }()
-	if f := c05Run2(c, in); f != nil {
+	// the whole-sequence budget is checked on one case in eight (reading the exact counter stops the world);
+	// the decoders' own budget is checked on every case
+	sampled := (len(in)+c.Arg)%8 == 0 || os.Getenv("VERIF_C05_ALLOC_SURVEY") != ""
+	var a0, used uint64
+	if sampled {
+		a0 = c05Allocated()
+	}
+	f := c05Run2(c, in)
+	if sampled {
+		used = c05Allocated() - a0
+	}
+	if os.Getenv("VERIF_C05_ALLOC_SURVEY") != "" {
+		if m := c05MaxAlloc[c.Target]; used*uint64(m[1]+256) > m[0]*uint64(len(in)+256) || m[0] == 0 {
+			c05MaxAlloc[c.Target] = [2]uint64{used, uint64(len(in))}
+		}
+	}
+	if f != nil {
 		return f
+	}
+	if used > c05AllocBudget(len(in)) {
+		return hx.Failf("memory:alloc:"+c.Target, "%s allocated %d bytes while processing a %d-byte input (budget: 2 MiB + 16 KiB per input byte)", c.Target, used, len(in))
 	}
 	if !spareIntact() {
 		return hx.Failf("input-modified:spare-capacity:"+c.Target, "%s wrote into the spare capacity behind the caller's slice (append to a caller-owned slice)", c.Target)
@@ -779,7 +830,12 @@ func c05Run2(c CaseC05, in []byte) *hx.Failure {
 		psi.NewPointerField(c.Arg % 200)
 		return c05Unchanged("PSI accessors", keep, in)
 	case "pat":
-		if p, err := psi.NewPAT(in); err == nil && p != nil {
+		var p psi.PAT
+		var err error
+		if f := c05Decode("NewPAT", len(in), func() { p, err = psi.NewPAT(in) }); f != nil {
+			return f
+		}
+		if err == nil && p != nil {
 			p.NumPrograms()
 			p.ProgramMap()
 			p.SPTSpmtPID()
@@ -789,7 +845,12 @@ func c05Run2(c CaseC05, in []byte) *hx.Failure {
 		}
 		return c05Unchanged("NewPAT and its getters", keep, in)
 	case "pmt":
-		if p, err := psi.NewPMT(in); err == nil && p != nil {
+		var p psi.PMT
+		var err error
+		if f := c05Decode("NewPMT", len(in), func() { p, err = psi.NewPMT(in) }); f != nil {
+			return f
+		}
+		if err == nil && p != nil {
 			c05PokePMT(p)
 		}
 		return c05Unchanged("NewPMT and its getters", keep, in)
@@ -831,7 +892,12 @@ func c05Run2(c CaseC05, in []byte) *hx.Failure {
 			}
 		}
 	case "pes":
-		if h, err := pes.NewPESHeader(in); err == nil && h != nil {
+		var h pes.PESHeader
+		var err error
+		if f := c05Decode("NewPESHeader", len(in), func() { h, err = pes.NewPESHeader(in) }); f != nil {
+			return f
+		}
+		if err == nil && h != nil {
 			h.HasPTS()
 			h.PTS()
 			h.HasDTS()
@@ -854,12 +920,22 @@ func c05Run2(c CaseC05, in []byte) *hx.Failure {
 		}
 		return c05Unchanged("NewPESHeader and its getters", keep, in)
 	case "ebp":
-		if e, err := ebp.ReadEncoderBoundaryPoint(in); err == nil && e != nil {
+		var e ebp.EncoderBoundaryPoint
+		var err error
+		if f := c05Decode("ReadEncoderBoundaryPoint", len(in), func() { e, err = ebp.ReadEncoderBoundaryPoint(in) }); f != nil {
+			return f
+		}
+		if err == nil && e != nil {
 			c05PokeEBP(e)
 		}
 		return c05Unchanged("ReadEncoderBoundaryPoint and its getters", keep, in)
 	case "scte35":
-		if s, err := scte35.NewSCTE35(in); err == nil && s != nil {
+		var s scte35.SCTE35
+		var err error
+		if f := c05Decode("NewSCTE35", len(in), func() { s, err = scte35.NewSCTE35(in) }); f != nil {
+			return f
+		}
+		if err == nil && s != nil {
 			c05PokeSCTE(s)
 		}
 		return c05Unchanged("NewSCTE35 and its getters", keep, in)
@@ -934,10 +1010,10 @@ func checkC05(c CaseC05, x *hx.Ctx) *hx.Failure {
 var propC05 = hx.Register(hx.Prop[CaseC05]{ID: "C05", Gen: genC05, Check: checkC05})
 
 func c05Rule() {
-	hx.Rec("C05").SetRule("cases: (entry-point group, input) over 17 groups: packet accessors / adaptation-field getters / modifiers on 188-byte arrays; FromBytes; PSI accessors; NewPAT, NewPMT (+ every getter, descriptor decoder, String, RemoveElementaryStreams), descriptor decoders directly, FilterPMTPacketsToPids; NewPESHeader; ReadEncoderBoundaryPoint; NewSCTE35 (+ every getter of signal/command/descriptors, String, UpdateData, re-decode, state tracker); Sync, ReadPAT, ReadPMT, accumulator, IOWriter.Write/ReadFrom over byte streams through fragmenting and failing readers. Inputs come from three families: well-formed instances from the reference builders; those instances mutated 1..3 times (truncate anywhere, boundary constants 0x00/0xFF/0x7F/0x80/0x0D/0x47/183/184/188 at any offset, +-1/2 on any byte, random byte, extension, bit flip, byte removal; for packets: af_len 0..255, flags byte, AFC, variable-field length bytes; for SCTE-35: UPID type forced to MID with any residual length, and 65 KiB sections with descriptor_loop_length >= 65270 ending up to 3 bytes short/long); arbitrary bytes. Oracle: no panic (recovered, keyed by innermost library function + statement text), returns within 20 s and below 1 GiB heap (in-process watchdog), read-only operations leave the caller's buffer byte-identical, objects returned without error survive all getters, printing and re-encoding. Non-trivial: input from the mutated, arbitrary or bigloop family; distinct by (target, input).",
+	hx.Rec("C05").SetRule("cases: (entry-point group, input) over 17 groups: packet accessors / adaptation-field getters / modifiers on 188-byte arrays; FromBytes; PSI accessors; NewPAT, NewPMT (+ every getter, descriptor decoder, String, RemoveElementaryStreams), descriptor decoders directly, FilterPMTPacketsToPids; NewPESHeader; ReadEncoderBoundaryPoint; NewSCTE35 (+ every getter of signal/command/descriptors, String, UpdateData, re-decode, state tracker); Sync, ReadPAT, ReadPMT, accumulator, IOWriter.Write/ReadFrom over byte streams through fragmenting and failing readers. Inputs come from three families: well-formed instances from the reference builders; those instances mutated 1..3 times (truncate anywhere, boundary constants 0x00/0xFF/0x7F/0x80/0x0D/0x47/183/184/188 at any offset, +-1/2 on any byte, random byte, extension, bit flip, byte removal; for packets: af_len 0..255, flags byte, AFC, variable-field length bytes; for SCTE-35: UPID type forced to MID with any residual length, and 65 KiB sections with descriptor_loop_length >= 65270 ending up to 3 bytes short/long); arbitrary bytes. Oracle: no panic (recovered, keyed by innermost library function + statement text), returns within 20 s and below 1 GiB heap (in-process watchdog), every decoder call (NewPAT, NewPMT, NewPESHeader, ReadEncoderBoundaryPoint, NewSCTE35) allocates at most 32 KiB + 128 bytes per input byte and (on one case in eight) the whole call sequence at most 2 MiB + 16 KiB per input byte (exact TotalAlloc deltas), read-only operations leave the caller's buffer byte-identical, objects returned without error survive all getters, printing and re-encoding. Non-trivial: input from the mutated, arbitrary or bigloop family; distinct by (target, input).",
 		"a returned error is always acceptable",
 		"the CLI main package is not driven in-process",
-		"hang / memory thresholds (20 s, 1 GiB) are four to six orders of magnitude above the normal cost of a case")
+		"hang / heap thresholds (20 s, 1 GiB) are four to six orders of magnitude above the normal cost of a case; the allocation budgets are 4x (decoders) to 10x (whole sequence) above the maxima measured on the repaired tree (TestC05_ZAllocSurvey)")
 }
 
 func TestC05(t *testing.T) {
@@ -1074,5 +1150,16 @@ func sortStrings(s []string) {
 		for j := i; j > 0 && s[j] < s[j-1]; j-- {
 			s[j], s[j-1] = s[j-1], s[j]
 		}
+	}
+}
+
+// TestC05AllocSurvey prints, per entry-point group, the largest allocation observed in this process
+// relative to the input size (run with VERIF_C05_ALLOC_SURVEY=1 after the other C05 tests).
+func TestC05_ZAllocSurvey(t *testing.T) {
+	if os.Getenv("VERIF_C05_ALLOC_SURVEY") == "" {
+		t.Skip("survey only")
+	}
+	for k, v := range c05MaxAlloc {
+		t.Logf("%-28s max %8d bytes allocated for a %6d-byte input (%.0f per byte incl. 256 slack)", k, v[0], v[1], float64(v[0])/float64(v[1]+256))
 	}
 }
